@@ -854,7 +854,40 @@ def mon_C11(t):
             for k, (ci, op) in last_write.items():
                 if op == "delete" and k in sa:
                     out.append(fail(t, i, "delete-after-put-lost", "delete(%d) was issued after every other write of key %d and everything is acknowledged, yet the key is still stored" % (k, k)))
-    # KeysAdded counts accepted puts exactly once
+    # writes are applied in submission order: at quiescence, the charge of a key whose last issued write is a put_or_update
+    # with an explicit weight (accepted, key still held under the same id) is that weight
+    last_weight = {}
+    for i, r in enumerate(t.recs):
+        if r["skipped"]:
+            continue
+        p = r["ev"].split()
+        call = None
+        if p[0] == "call" and p[2] in ("put", "put_w", "put_ttl", "put_w_ttl", "upsert", "delete") and r["ret"] and r["ret"][0] in (0, 1):
+            call = p[2:]
+        if p[0] == "run" and r["ret"] and r["ret"][0] in (0, 1):
+            c = t.pending_call(i)
+            if c and c[0] in ("put", "put_w", "put_ttl", "put_w_ttl", "upsert", "delete"):
+                call = c
+        if call and not t.before[i]["shut"]:
+            k = int(call[1])
+            last_weight.pop(k, None)
+            sb = {e[0]: e for e in t.before[i]["store"]}
+            if call[0] == "upsert" and call[3] != "-" and k in sb:
+                accepted_on_spot = r["ret"][0] == 1 and r["ret"][1:] == [1]
+                if r["ret"][0] == 0 or accepted_on_spot:
+                    last_weight[k] = (i, int(call[3]), r["ret"][1] if r["ret"][0] == 0 else None, sb[k][2])
+        if p[0] in ("call", "run") and r["ret"] and r["ret"][0] == 3:
+            last_weight.clear()
+        if r["snap"]["shut"]:
+            last_weight.clear()
+        if t.quiescent(i) and r["roles"]["worker"] == "alive":
+            sa = t.store_after(i)
+            wa = {w[0]: w[3] for w in r["snap"]["weights"]}
+            for k, (ci, w, ack, kid) in last_weight.items():
+                if ack is not None and (ack >= len(r["acks"]) or r["acks"][ack] != 1):
+                    continue
+                if k in sa and sa[k][2] == kid and wa.get(kid) is not None and wa[kid] != w:
+                    out.append(fail(t, i, "weight-update-order-lost", "put_or_update(%d, weight %d) was issued after every other write of key %d and is acknowledged as accepted, everything is acknowledged, yet the key is charged %d" % (k, w, k, wa[kid])))
     return out
 
 
